@@ -67,6 +67,13 @@ MenuPanicB == {<<>>, <<Send("bo", 1)>>, <<PanicC>>, <<Send("bo", 1), Sched(1), P
                <<SetCatch(1), PanicC>>, <<SetCatch(0), Send("bo", 1), PanicC>>}
 MenuPanic == [m \in {"a", "b", "c"} |-> IF m = "a" THEN MenuPanicA ELSE IF m = "b" THEN MenuPanicB ELSE {<<>>}]
 StartPanic == [m \in {"a", "b", "c"} |-> IF m = "a" THEN {<<Send("ao", 1), Sched(1)>>, <<PanicC>>, <<Sched(1)>>} ELSE {<<>>, <<Sched(1)>>, <<PanicC>>}]
+(* C13 x C09: a panic in an event in which the module has asked for shutdown / restart, or while its restart is scheduled *)
+MenuPanicShutA == {<<>>, <<Send("ao", 1)>>, <<Sched(1)>>, <<PanicC>>, <<RestartC(1), PanicC>>, <<ShutdownC, PanicC>>, <<RestartC(2)>>,
+                   <<SetCatch(1), Send("ao", 1), RestartC(1), PanicC>>}
+MenuPanicShutB == {<<>>, <<Send("bo", 1)>>, <<Sched(1)>>}
+MenuPanicShut == [m \in {"a", "b", "c"} |-> IF m = "a" THEN MenuPanicShutA ELSE IF m = "b" THEN MenuPanicShutB ELSE {<<>>}]
+StartPanicShut == [m \in {"a", "b", "c"} |-> IF m = "a" THEN {<<Send("ao", 1), Sched(1)>>, <<RestartC(1)>>, <<PanicC>>, <<SetCatch(1), PanicC>>, <<Sched(1)>>}
+                                              ELSE {<<>>, <<Sched(1)>>}]
 (* C14: processing elements; `eat` = index (1-based) of the element that consumes the message *)
 MenuPEA == {<<>>, <<SendEat("ao", 0)>>, <<SendEat("ao", 1), SendEat("ao", 2)>>, <<SchedEat(1, 0), SendEat("ao", 2)>>, <<SchedEat(1, 1)>>, <<SchedEat(0, 2), SchedEat(0, 0)>>}
 MenuPEB == {<<>>, <<SendEat("bo", 0)>>, <<SendEat("bo", 1)>>, <<SendEat("bo", 2), SchedEat(1, 0)>>}
@@ -82,6 +89,7 @@ Stack2 == [m \in {"a", "b", "c"} |-> 2]
 (* C04, design level: with the scripts fixed (singleton menus) the interpreter has exactly one behaviour *)
 MenuDet == [m \in {"a", "b", "c"} |-> IF m = "a" THEN {<<Send("ao", 2), Sched(1), Send("at", 1)>>} ELSE IF m = "b" THEN {<<Send("bo", 1)>>} ELSE {<<Sched(2)>>}]
 StartDet == [m \in {"a", "b", "c"} |-> IF m = "a" THEN {<<Send("ao", 1), Send("ao", 3), Sched(1)>>} ELSE {<<Sched(1)>>}]
+NoReplay == <<>>
 Stack3 == [m \in {"a", "b", "c"} |-> 3]
 NoEndFail == {}
 EndFailA == {"a"}
